@@ -86,7 +86,8 @@ fn main() {
         writeln!(out, "{{\"start\":{id}}}").unwrap();
         out.flush().unwrap();
         let ty = req["ty"].as_str().unwrap_or("");
-        let Some(ops) = table.get(ty) else {
+        let rt_ops = gencases::rt::Ops { exec: gencases::rt::exec_rt, default: None };
+        let Some(ops) = (if ty.starts_with('@') { Some(&rt_ops) } else { table.get(ty) }) else {
             writeln!(out, "{}", serde_json::json!({"id": id, "ok": false, "err": format!("harness: no such type {ty}"), "tool_error": true})).unwrap();
             continue;
         };
